@@ -189,7 +189,15 @@ func ConvertUFix64WithRounding(memoryGauge common.MemoryGauge, value Value, roun
 			func() uint64 {
 				fix128 := fix.Fix128(value)
 				if fix128.IsNeg() {
-					panic(&UnderflowError{})
+					// A negative value is only representable if it gets rounded to zero
+					result, err := fix128.ToFix64(roundingRule)
+					if err != nil {
+						handleFixedPointConversionError(err)
+					}
+					if result.IsNeg() {
+						panic(&UnderflowError{})
+					}
+					return 0
 				}
 				// A non-negative Fix128 has the same bit representation as UFix128
 				result, err := fix.UFix128(fix128).ToUFix64(roundingRule)
